@@ -95,6 +95,13 @@ fn predicate_case(sink: &mut Sink, model: &mut Model, doc: &Value, class: &str) 
                 serde_json::from_value::<in_toto::models::PredicateWrapper>(doc.clone()).is_ok() as u32,
             ];
             let _ = n;
+            // the crate's own interface gives the same canonical form, and converts back to the same wrapper
+            {
+                let p2 = p.clone();
+                let tb = guarded(move || p2.into_trait().to_bytes());
+                sink.oracle(matches!(&tb, Ok(Ok(b)) if Some(&b[..]) == canon(&p).as_deref()), "to_bytes of an accepted predicate fails or is not the canonical form of its serialisation", &replay);
+                sink.oracle(p.clone().into_trait().into_enum() == p, "a predicate changes when converted to its trait object and back", &replay);
+            }
             // serialises to a canonical form that parses back to an equal value, byte-identically
             match canon(&p) {
                 None => sink.oracle(false, "accepted predicate cannot be serialised canonically", &replay),
@@ -195,24 +202,33 @@ fn statement_case(sink: &mut Sink, model: &mut Model, doc: &Value, declared_vs_a
                 },
             }
             // and through the trait object (`to_bytes`)
-            let tb = s_to_bytes(&s);
+            let tb = s_to_bytes(doc);
             match tb {
                 None => sink.oracle(false, "to_bytes failed for an accepted statement", &replay),
                 Some(bytes) => match serde_json::from_slice::<StatementWrapper>(&bytes) {
                     Err(_) => sink.oracle(false, "to_bytes output of an accepted statement does not parse back", &replay),
-                    Ok(back) => sink.oracle(back == s, "statement changes in a to_bytes/parse round trip", &replay),
+                    Ok(back) => {
+                        sink.oracle(back == s, "statement changes in a to_bytes/parse round trip", &replay);
+                        sink.oracle(canon(&s).as_deref() == Some(&bytes[..]), "to_bytes of a statement is not the canonical form of its serialisation", &replay);
+                    }
                 },
             }
+            // the trait object knows its version, and converts back to the same wrapper
+            let Ok(again) = serde_json::from_value::<StatementWrapper>(doc.clone()) else { return };
+            let t = again.into_trait();
+            let ver: String = t.version().into();
+            let want_ver = if name == "StateV01" { "https://in-toto.io/Statement/v0.1" } else { "link" };
+            sink.oracle(ver == want_ver, "a statement reports another version than the format it was read as", &replay);
+            sink.oracle(t.into_enum() == s, "a statement changes when converted to its trait object and back", &replay);
         }
     }
 }
 
-fn s_to_bytes(s: &StatementWrapper) -> Option<Vec<u8>> {
-    let j = match s {
-        StatementWrapper::Naive(x) => Json::serialize(x).ok()?,
-        StatementWrapper::V0_1(x) => Json::serialize(x).ok()?,
-    };
-    Json::canonicalize(&j).ok()
+/// the statement's canonical form through the crate's own interface (`into_trait().to_bytes()`)
+fn s_to_bytes(doc: &Value) -> Option<Vec<u8>> {
+    // (the wrapper cannot be cloned: read it once more)
+    let s2 = serde_json::from_value::<StatementWrapper>(doc.clone()).ok()?;
+    guarded(move || s2.into_trait().to_bytes()).ok()?.ok()
 }
 
 fn tables(sink: &mut Sink) {
